@@ -2,6 +2,7 @@ package absint
 
 import (
 	"fmt"
+	"os"
 	"go/constant"
 	"go/token"
 	"go/types"
@@ -425,7 +426,9 @@ func (x *Exec) stateKey(s *State, final bool) string {
 			}
 			if fi == len(s.Frames)-1 {
 				if !live[v] {
-					continue
+					if phi, isPhi := v.(*ssa.Phi); !isPhi || phi.Block() != f.Block {
+						continue
+					}
 				}
 			} else {
 				// suspended frame: values live into the block or defined in it
@@ -1117,6 +1120,9 @@ func (x *Exec) enterBlock(s *State, pred, b *ssa.BasicBlock, first bool) {
 	}
 	x.seen[key] = true
 	x.States++
+	if os.Getenv("HRTRACE") != "" {
+		fmt.Fprintf(os.Stderr, "state %d: %s block %d (from %v) path=%v\n", x.States, f.Fn.Name(), b.Index, pred, s.Path)
+	}
 	if x.Debug != nil {
 		x.Debug(x.headKey(s), key)
 	}
@@ -1963,7 +1969,16 @@ func (x *Exec) step(s *State, f *Frame, in ssa.Instruction) bool {
 				d.fn = NewTerm("method:"+in.Call.Method.Name(), recv)
 			}
 		}
-		f.Defers = append(f.Defers, d)
+		// a defer inside a loop piles up one entry per iteration: keep at most two per site
+		same := 0
+		for _, e := range f.Defers {
+			if e.site == in {
+				same++
+			}
+		}
+		if same < 2 {
+			f.Defers = append(f.Defers, d)
+		}
 	case *ssa.Call:
 		return x.call(s, f, in)
 	case *ssa.DebugRef:
